@@ -205,6 +205,56 @@ func c02Body(w *W) {
 	forEachStdDoc(w, func(name string, text []byte) {
 		c02Doc(w, "C02-"+name, text, false)
 	})
+	// second pass: one ParsedJson reused for every document (both string modes), read
+	// through walkers whose destinations are long-lived too
+	w.Note("reuse pass: every tree (compact and escaped-spelling layouts) parsed into ONE reused ParsedJson per string mode and read through walkers that reuse their Root/Object/Array/Elements destinations across documents")
+	sess := map[bool]*parseSession{true: {}, false: {}}
+	ds := c02Space(w)
+	// one string mode after the other, so that the long-lived destinations stay bound to the
+	// same reused ParsedJson from one document to the next
+	for _, cpMode := range []bool{false, true} {
+		ds.each(func(t *ref.Node) {
+			w.res.States++
+			if !w.Mine() || w.Expired() || w.TooManyViolations() {
+				return
+			}
+			for _, l := range []int{0, 1} {
+				text := renderLayout(t, l)
+				d, v := ref.Parse(text)
+				if v != ref.Valid {
+					continue
+				}
+				ex := mkExpect([]*ref.Node{d})
+				for _, cp := range []bool{cpMode} {
+					c := Cfg{hasAVX512, cp}
+					w.res.Transitions++
+					w.res.Evaluations++
+					w.cur.Set("C02-reuse-pass", c.String(), text)
+					// private copy: in no-copy mode the tape points into the input
+					pj, err, p := sess[cp].parse(c, append([]byte(nil), text...), false)
+					w.res.Validated++
+					if err != nil || p != "" {
+						w.Violate(Violation{Harness: "C02-reuse-pass", Fingerprint: "C02/reuse/rejected", What: fmt.Sprint("valid document rejected with a reused object: ", err, p), Case: append([]byte(nil), text...), Config: c.String()})
+						continue
+					}
+					for _, o := range walkCombos {
+						if !o.reuseDst {
+							continue
+						}
+						docs, werr := walkDoc(pj, o)
+						got := ""
+						if werr == nil {
+							got = renderDocs(docs, renderExact)
+						}
+						if werr != nil || got != ex.exact {
+							w.Violate(Violation{Harness: "C02-reuse-pass", Fingerprint: "C02/reuse/walker", What: fmt.Sprintf("%v: exposed %s (%v), document is %s (the document before it in this object was different)", o, clip(got), werr, clip(ex.exact)), Case: append([]byte(nil), text...), Config: c.String()})
+							break
+						}
+					}
+				}
+			}
+		})
+	}
 }
 
 func c02Replay(v *Violation) string {
